@@ -339,17 +339,19 @@ def check_normalize_new(rep, norm):
 def check_binning(rep, where, f, fo, acc, want_arg, Nsym, periodic, do_congruence):
     """the accumulation store: index = floor(want_arg) when inside [0,N), left alone (non-periodic) or wrapped by a true modulo
     (periodic) when outside.  The raw index is touched only through comparisons with 0 and N: one representative per ordering."""
-    if len(acc) != 1:
-        rep.broken("R13.2", "%s: expected one accumulation into the bin array, found %d" % (where, len(acc)))
+    if not acc:
+        rep.broken("R13.2", "%s: no accumulation into the bin array found" % where)
         return
-    e = acc[0]
-    idx = e["idx"][0]
-    if isinstance(idx, (tuple, sp.Matrix)):
+    # one accumulation statement, or several on mutually exclusive paths (early returns): per scenario exactly the one that runs counts
+    if any(isinstance(e_["idx"][0], (tuple, sp.Matrix)) for e_ in acc):
         rep.broken("R13.2", "%s: the bin subscript does not fold to a scalar" % where)
         return
-    fl = {a for a in sp.preorder_traversal(idx) if str(getattr(a, "func", "")) == "floor"}
-    for g_ in list(e["guards"]) + [x for gl in e.get("not", []) for x in gl]:
-        fl |= floors_in(g_[0])
+    e = acc[0]
+    fl = set()
+    for e_ in acc:
+        fl |= {a for a in sp.preorder_traversal(e_["idx"][0]) if str(getattr(a, "func", "")) == "floor"}
+        for g_ in list(e_["guards"]) + [x for gl in e_.get("not", []) for x in gl]:
+            fl |= floors_in(g_[0])
     okf = len(fl) == 1 and equal_fn(list(fl)[0].args[0], want_arg)
     rep.check(okf, "R13.2", "index|" + where, "bin index = floor(%s)" % want_arg,
               "%s: the bin index is derived from %s, not floor((v-min)/step + 1/2): values are not assigned to the nearest bin centre" % (
@@ -362,15 +364,21 @@ def check_binning(rep, where, f, fo, acc, want_arg, Nsym, periodic, do_congruenc
 
     Zs = S("_Zraw")
     pre = {Fn("toint")(flo): Zs, flo: Zs}
-    idx0 = idx.xreplace(pre)
 
     def case(zval, per):
         sub = {Fn("toint")(flo): zval, flo: zval, Zs: zval, Nsym: Nn}
         atoms = {periodic: per}
-        ex = executes(e, sub, atoms)
-        iv = resolve_ite(idx0, lambda cs: decide(conds.get(cs), sub, atoms) if cs in conds else None)
+        xs = [executes(e_, sub, atoms) for e_ in acc]
+        if any(x is None for x in xs):
+            return None, None
+        run = [e_ for e_, x in zip(acc, xs) if x]
+        if not run:
+            return False, None
+        if len(run) > 1:
+            return True, S("counted_%d_times" % len(run))
+        iv = resolve_ite(run[0]["idx"][0].xreplace(pre), lambda cs: decide(conds.get(cs), sub, atoms) if cs in conds else None)
         iv = iv.xreplace(sub) if hasattr(iv, "xreplace") else iv
-        return ex, iv
+        return True, iv
     inside = [("0", sp.Integer(0)), ("N-1", Nn - 1)]
     outside = [("-1", sp.Integer(-1)), ("-N-1", -Nn - 1), ("N", Nn), ("2N+3", 2 * Nn + 3)]
     for nm, z in inside:
@@ -398,9 +406,10 @@ def check_binning(rep, where, f, fo, acc, want_arg, Nsym, periodic, do_congruenc
                       "%s: in periodic mode a value with raw bin index %s is dropped" % (where, nm), f.loc(e["node"]))
     if do_congruence:
         Z = S("_Z")
-        iz = idx.xreplace({Fn("toint")(flo): Z}).xreplace({flo: Z})
-        rep.check(congruent(iz, Z, Nsym), "R13.5", "wrap-modulo|" + where, "bin index == raw index (mod N) on every branch",
-                  "%s: the wrapped bin index %s is not congruent to the raw index modulo the bin count" % (where, str(iz)[:200]), f.loc(e["node"]), sample=True)
+        izs = [e_["idx"][0].xreplace({Fn("toint")(flo): Z}).xreplace({flo: Z}) for e_ in acc]
+        badz = [iz for iz in izs if not congruent(iz, Z, Nsym)]
+        rep.check(not badz, "R13.5", "wrap-modulo|" + where, "bin index == raw index (mod N) on every branch",
+                  "%s: the wrapped bin index %s is not congruent to the raw index modulo the bin count" % (where, str(badz[0])[:200] if badz else ""), f.loc(e["node"]), sample=True)
 
 
 def floors_in(c):
